@@ -149,6 +149,8 @@ func TestSim(t *testing.T) {
 		defer out.Close()
 		w := bufio.NewWriter(out)
 		enc := json.NewEncoder(w)
+		violSeen := map[string]int{}
+		nViol := 0
 		for i := from; i < to; i += stride {
 			if time.Now().After(deadline) {
 				break
@@ -156,10 +158,20 @@ func TestSim(t *testing.T) {
 			fmt.Fprintf(w, "{\"start\":%d}\n", i)
 			w.Flush()
 			res := runOne(t, prop, tier, base, i, nil, false)
+			if res.Viol != nil {
+				// keep exploring (known findings must not cut the search short), but bound
+				// the output: tapes/traces only for the first few violations of each kind
+				k := res.Viol.Class + "|" + res.Viol.Sig
+				violSeen[k]++
+				if violSeen[k] > 5 {
+					res.Tapes, res.Trace = nil, nil
+				}
+				nViol++
+			}
 			_ = enc.Encode(res)
 			w.Flush()
-			if res.Viol != nil && os.Getenv("VSIM_KEEP_GOING") == "" {
-				break
+			if nViol >= 400 && os.Getenv("VSIM_KEEP_GOING") == "" {
+				break // hopeless tree: enough evidence
 			}
 		}
 	case "serve":
